@@ -612,6 +612,11 @@ func (r *Reg) Preamble() string {
 		fmt.Fprintf(&b, "(assert (forall ((a %s) (k %s)) (! (= (%s (store a k false)) (ite (select a k) (- (%s a) 1) (%s a))) :pattern ((%s (store a k false))))))\n", as, k, c, c, c, c)
 		fmt.Fprintf(&b, "(assert (= (%s ((as const %s) false)) 0))\n", c, as)
 		fmt.Fprintf(&b, "(assert (forall ((a %s)) (! (=> (= (%s a) 0) (= a ((as const %s) false))) :pattern ((%s a)))))\n", as, c, as, c)
+		// a set with two or more elements has two distinct members (witness functions)
+		fmt.Fprintf(&b, "(declare-fun %s_w1 (%s) %s)\n(declare-fun %s_w2 (%s) %s)\n", c, as, k, c, as, k)
+		fmt.Fprintf(&b, "(assert (forall ((a %s)) (! (=> (>= (%s a) 2) (and (select a (%s_w1 a)) (select a (%s_w2 a)) (not (= (%s_w1 a) (%s_w2 a))))) :pattern ((%s a)))))\n", as, c, c, c, c, c, c)
+		// a non-empty set has a member
+		fmt.Fprintf(&b, "(assert (forall ((a %s)) (! (=> (>= (%s a) 1) (select a (%s_w1 a))) :pattern ((%s a)))))\n", as, c, c, c)
 	}
 	for _, n := range r.ufunOrder {
 		b.WriteString(r.ufuns[n] + "\n")
